@@ -400,7 +400,7 @@ impl Prop for C20 {
             for (n, edges) in [(2u8, vec![(0u8, 1u8, 3u8), (0, 1, 6), (1, 0, 3)]), (3, vec![(0, 0, 3), (0, 1, 3)]), (4, vec![(1, 2, 3)]), (5, vec![(0, 1, 3), (1, 2, 3), (3, 4, 3)])] {
                 for wmode in [0u8, 1] {
                     for absent in [false, true] {
-                        v.push(ApiCase { g: GraphCase { kind, n, perm: 5, shape: 0, edges: edges.clone(), wmode }, sel: 3, absent });
+                        v.push(ApiCase { g: GraphCase { kind, n, perm: 5, shape: 0, edges: edges.clone(), wmode, big_n: 0, big_seed: 0 }, sel: 3, absent });
                     }
                 }
             }
